@@ -1,0 +1,21 @@
+//go:build verif
+
+package otto
+
+// Read-only accessors used by the verification harness under /verif.
+// Compiled only with -tags verif; nothing here changes interpreter state.
+
+// VerifScopeDepth reports the nesting depth of the current execution context
+// (0 at rest in the global scope) and whether it is the global one.
+func (o Otto) VerifScopeDepth() (depth int, global bool) {
+	s := o.runtime.scope
+	if s == nil {
+		return -1, false
+	}
+	return s.depth, s.outer == nil
+}
+
+// VerifLabelCount reports the number of pending statement labels.
+func (o Otto) VerifLabelCount() int {
+	return len(o.runtime.labels)
+}
